@@ -325,38 +325,41 @@ def stripSpaces : Bytes → Bytes
 
 def httpPrefix : Bytes := [72, 84, 84, 80, 47]   -- "HTTP/"
 
+/-- `Row.unmarshal`, measurement and tags: the text before the first unescaped blank. -/
+def parseHead (noEsc : Bool) (mt : Bytes) : Except Err (List Tag × Bytes) :=
+  match nextUnesc noEsc bComma mt with
+  | some k => (parseTags noEsc (mt.length + 1) (mt.drop (k + 1))).map fun ts => (sortTags ts, mt.take k)
+  | none => .ok ([], mt)
+
+/-- `Row.unmarshal`, fields and timestamp: the text after the blanks that follow the tags. -/
+def parseTail (noEsc : Bool) (name : Bytes) (tags : List Tag) (s : Bytes) : Except Err Row :=
+  let hasQuoted := (nextUnesc noEsc bQuote s).isSome
+  match nextUnquoted noEsc hasQuoted bSpace s with
+  | none =>
+    match parseFields noEsc hasQuoted (s.length + 1) s with
+    | .error e => .error e
+    | .ok fs => .ok ⟨name, tags, fs, noTimestamp⟩
+  | some n =>
+    match parseFields noEsc hasQuoted (n + 1) (s.take n) with
+    | .error e => if httpPrefix.isPrefixOf (s.drop (n + 1)) then .error .http else .error e
+    | .ok fs =>
+      let s := stripSpaces (s.drop (n + 1))
+      match parseTimestamp s with
+      | none => if httpPrefix.isPrefixOf s then .error .http else .error .ts
+      | some t => .ok ⟨name, tags, fs, t⟩
+
 /-- `Row.unmarshal`. -/
 def parseRow (noEsc : Bool) (s0 : Bytes) : Except Err Row :=
   let s := skipLeadingWs s0
   match nextUnesc noEsc bSpace s with
   | none => .error .nofield
   | some n =>
-    let mt := s.take n
-    let s := stripSpaces (s.drop (n + 1))
-    let tagsRes : Except Err (List Tag × Bytes) :=
-      match nextUnesc noEsc bComma mt with
-      | some k => (parseTags noEsc (mt.length + 1) (mt.drop (k + 1))).map fun ts => (sortTags ts, mt.take k)
-      | none => .ok ([], mt)
-    match tagsRes with
+    match parseHead noEsc (s.take n) with
     | .error e => .error e
     | .ok (tags, m) =>
       let name := unescapeTag noEsc m
       if name.length > maxMeasurementLength then .error .toolong
-      else
-        let hasQuoted := (nextUnesc noEsc bQuote s).isSome
-        match nextUnquoted noEsc hasQuoted bSpace s with
-        | none =>
-          match parseFields noEsc hasQuoted (s.length + 1) s with
-          | .error e => .error e
-          | .ok fs => .ok ⟨name, tags, fs, noTimestamp⟩
-        | some n =>
-          match parseFields noEsc hasQuoted (n + 1) (s.take n) with
-          | .error e => if httpPrefix.isPrefixOf (s.drop (n + 1)) then .error .http else .error e
-          | .ok fs =>
-            let s := stripSpaces (s.drop (n + 1))
-            match parseTimestamp s with
-            | none => if httpPrefix.isPrefixOf s then .error .http else .error .ts
-            | some t => .ok ⟨name, tags, fs, t⟩
+      else parseTail noEsc name tags (stripSpaces (s.drop (n + 1)))
 
 /-- result of `unmarshalRow` on one line. -/
 inductive LineRes where
